@@ -347,7 +347,7 @@ def violation_key(e, verdict):
 def design_level(ctx, quick):
     dump = os.path.join(ctx.tmp, "closures")
     def mc():
-        r = core.tlc("Closures", cfg_text=MC % ("1,2,3", 2, "faithful", FULL), dump=dump, workers=4, timeout=900)
+        r = core.tlc("Closures", cfg_text=MC % ("1,2,3", 2, "faithful", FULL), dump=dump, workers=4, timeout=3000)
         ctx.add_tlc("MC_Closures(3cbs,2sigs,blocks 1/2/3)", r)
 
     def mc4():
@@ -355,7 +355,7 @@ def design_level(ctx, quick):
         ctx.add_tlc("MC_Closures(4cbs,2sigs,blocks 1/3/4)", r)
 
     def variant(v):
-        r = core.tlc("Closures", cfg_text=MC % ("1,2,3", 2, v, ""), workers=2, timeout=900)
+        r = core.tlc("Closures", cfg_text=MC % ("1,2,3", 2, v, ""), workers=2, timeout=3000)
         ctx.add_tlc("sanity:" + v, r, require_ok=False, count_states=False)
         if r.ok or "is violated" not in r.out:
             raise core.MachineryError("broken variant %s of Closures was not rejected by TLC:\n%s" % (v, r.out[-1500:]))
@@ -391,10 +391,10 @@ def run(ctx):
     g = design_level(ctx, quick)
     phase("tlc-design")
     rng = ctx.rng
-    peak = 1300 if quick else 6000
+    peak = 1300 if quick else 4000
     bounds = block_boundaries(page, slot, peak)
     sessions = []          # (kind, ops, predictable)
-    gops, npaths, nedges = gen_from_graph(g, rng, 150 if quick else 3000, 600 if quick else None)
+    gops, npaths, nedges = gen_from_graph(g, rng, 150 if quick else 1500, 600 if quick else None)
     sessions.append(("model-paths", gops, True))
     for i in range(3 if quick else 10):
         sessions.append(("random", gen_random(rng, 2500 if quick else 12000, rng.choice([80, 240, 460, 800]),
